@@ -1,18 +1,23 @@
 #!/usr/bin/env python3
-"""Runs the quick check of every claimed property sequentially; prints one line per property (for the coordinator)."""
+"""Runs the quick (default) or thorough (--thorough) check of every claimed property sequentially, from the directory this
+file lives in; prints one line per property (for the coordinator)."""
 import json
+import os
 import subprocess
 import sys
 import time
 
-man = json.load(open("/verif/MANIFEST.json"))
-only = sys.argv[1:]
+ROOT = os.path.dirname(os.path.dirname(os.path.abspath(__file__)))
+man = json.load(open(os.path.join(ROOT, "MANIFEST.json")))
+thorough = "--thorough" in sys.argv
+only = [a for a in sys.argv[1:] if not a.startswith("--")]
 for c in man["checks"]:
     pid = c["property_id"]
     if only and pid not in only:
         continue
     t0 = time.time()
-    p = subprocess.run(c["quick_cmd"], shell=True, cwd="/verif", stdout=subprocess.PIPE, stderr=subprocess.STDOUT)
+    cmd = c["thorough_cmd"] if thorough else c["quick_cmd"]
+    p = subprocess.run(cmd, shell=True, cwd=ROOT, stdout=subprocess.PIPE, stderr=subprocess.STDOUT)
     out = p.stdout.decode("utf-8", "replace")
     viol = [l for l in out.split("\n") if l.startswith("VIOLATION")]
     known = [l[:90] for l in out.split("\n") if l.startswith("KNOWN-FINDING")]
